@@ -74,6 +74,13 @@ def build_ops(repo, seed):
             texts3.append(ctab.render_v3000(m, V3Style(), rng))
             if ctab.v2000_representable(m):
                 texts2.append(ctab.render_v2000(m, V2Style(encoding="lines"), rng))
+    # V2000 atom-block charge/radical codes, also on D/T atoms (deuteron, tritium radical), next to plain files using the same codes
+    for k in range(3):
+        ions = Mol([Atom("H", 1, 0, 2, 0.0, 0.0, 0.0), Atom("N", 1, 0, 0, 1.0, 0.0, 0.0), Atom("H", 0, 2, 3, 2.0, float(k), 0.0), Atom("C", 0, 2, 0, 3.0, 0.0, 0.0),
+                    Atom("O", -1, 0, 0, 4.0, 0.0, 0.0)], [(1, 3, 1), (3, 4, 1)], "ions")
+        texts2.append(ctab.render_v2000(ions, V2Style(encoding="codes", dt_symbols=True), rng))
+        plain = Mol([Atom("N", 1, 0, 0, 1.0, 0.0, 0.0), Atom("C", 0, 2, 0, 3.0, 0.0, 0.0), Atom("O", -1, 0, 0, 4.0, 0.0, 0.0)], [(0, 1, 1), (1, 2, 1)], "plain")
+        texts2.append(ctab.render_v2000(plain, V2Style(encoding="codes"), rng))
     files = common.corpus_files(repo)
     for f in rng.sample(files, min(10, len(files))):
         t = open(f).read()
